@@ -28,13 +28,18 @@ def extract_basic_authorization(headers):
     if not auth or " " not in auth:
         return None, None
 
-    auth_type, auth_token = auth.split(None, 1)
+    parts = auth.split(None, 1)
+    if len(parts) != 2:
+        return None, None
+
+    auth_type, auth_token = parts
     if auth_type.lower() != "basic":
         return None, None
 
     try:
         query = to_unicode(base64.b64decode(auth_token))
-    except (binascii.Error, TypeError):
+    except (binascii.Error, TypeError, ValueError):
+        # ValueError also covers a non-ASCII token and credentials that are not UTF-8
         return None, None
     if ":" in query:
         username, password = query.split(":", 1)
